@@ -394,6 +394,43 @@ def run(ctx):
     qif = [n for n in walk_no_nested(url.node) if isinstance(n, ast.If) and norm_text(n.test) == 'self.query']
     ck.expect(len(qif) == 1, 'C10-D2', url.qual, "'?' + query only when the query is non-empty", 'query separator handling changed', url.loc())
 
+    # userinfo round trip: the codec that decodes the escapes in parse() is the one that encodes them in .url
+    pfn = repo.func(URL + ':URLInfo.parse')
+    urlp = repo.func(URL + ':URLInfo.url')
+
+    def codec_of(call, default='utf-8'):
+        e = U.kwarg(call, 'encoding')
+        if e is None:
+            return default
+        return e.value if isinstance(e, ast.Constant) else norm_text(e)
+    dec = {}
+    for st in walk_no_nested(pfn.node):
+        if isinstance(st, ast.Assign) and isinstance(st.value, ast.Call) and dotted(st.value.func) == 'percent_decode':
+            for t in st.targets:
+                if isinstance(t, ast.Attribute) and t.attr in ('username', 'password'):
+                    dec[t.attr] = codec_of(st.value)
+    enc = {}
+    for c in U.calls(urlp.node):
+        d = dotted(c.func) or ''
+        if d in ('normalize_username', 'normalize_password') and c.args and U.is_self_attr(c.args[0]):
+            enc[c.args[0].attr] = codec_of(c)
+    for fld in ('username', 'password'):
+        ck.expect(fld in dec and fld in enc and dec[fld] == enc[fld], 'C10-D2', pfn.qual,
+                  '%s: escapes decoded as %s in parse(), encoded as %s in .url' % (fld, dec.get(fld), enc.get(fld)),
+                  'the %s is percent-decoded with `%s` when parsed but percent-encoded with `%s` when the URL is reassembled: under a '
+                  'non-UTF-8 document encoding the normal form changes every time it is parsed again' % (fld, dec.get(fld), enc.get(fld)), pfn.loc())
+    # (an empty port, "http://host:/", is refused: url_test pins that behaviour, so it is not treated as a spelling of the default port)
+    # the document encoding is used for escapes only when it leaves ASCII alone (UTF-16, UTF-7, EBCDIC would rewrite the
+    # delimiters themselves): parse() must replace such a codec before it reaches the normalisers
+    okprobe = False
+    for n in walk_no_nested(pfn.node):
+        if isinstance(n, ast.If) and any(isinstance(c, ast.Call) and U.attr_name(c) == 'encode' and c.args and isinstance(c.args[0], ast.Name)
+                                         and c.args[0].id == 'encoding' for c in ast.walk(n.test)) \
+                and any(isinstance(b, ast.Assign) and any(isinstance(t, ast.Name) and t.id == 'encoding' for t in b.targets) for b in n.body):
+            okprobe = True
+    ck.expect(okprobe, 'C10-D1', pfn.qual, 'a document encoding that is not ASCII-transparent is replaced before it is used for escapes',
+              'path, query and fragment are percent-encoded with the document encoding even when it does not map ASCII to itself '
+              '(utf-16: "http://example.com/a" becomes "http://example.com%FF%FE/%00a%00?%FF%FE", which does not parse again)', pfn.loc())
     # ------------------------------------------------------------------ D3
     sets = {}
     for name in ('DEFAULT_ENCODE_SET', 'PASSWORD_ENCODE_SET', 'USERNAME_ENCODE_SET', 'QUERY_ENCODE_SET',
@@ -416,6 +453,10 @@ def run(ctx):
             need |= set(b'/@\\')
         if name == 'USERNAME_ENCODE_SET':
             need |= set(b':')
+        if name in ('PASSWORD_ENCODE_SET', 'USERNAME_ENCODE_SET'):
+            # the user name / password are stored percent-DEcoded and escaped again when the URL is reassembled: a literal
+            # '%' in them (from %25) must be escaped, or `a%2541` -> `a%41` -> `aA` on the next normalisation
+            need |= set(b'%')
         missing = need - set(v)
         ck.expect(not missing, 'C10-D3', URL + ':' + name, '%s contains %s' % (name, bytes(sorted(need))),
                   '%s no longer contains %r' % (name, bytes(sorted(missing))), 'wpull/url.py')
